@@ -11,7 +11,7 @@ CLAIMED = {
          'go/ssa translation, the gosym interpreter, z3; wheel driven without its run() goroutine (run() serialises exactly these calls); SafeMap/list executed from source; sync.RWMutex modelled natively.',
          'SSA symbolic execution + SMT (z3), stateless DFS over decision vectors'),
  'C01': ('DESIGN.md §4 C01',
-         'Bounded symbolic execution of the real googleBreaker.accept (admission law, forced probe, sustained failure: window summary, clock and random draw symbolic; floats in the E2 real relaxation), history() over symbolic bucket contents, and exact accounting of all 10 Do*/Allow* entry points of the real NewBreaker() object for every request outcome/fallback/context combination.',
+         'Bounded symbolic execution of the real googleBreaker.accept (admission law, forced probe, sustained failure: window summary, clock and random draw symbolic; floats in the E2 real relaxation), history() over symbolic bucket contents, and exact accounting of all 10 Do*/Allow* entry points of the real NewBreaker() object - directly and through the package-level helpers of breakers.go (registry) - for every request outcome/fallback/context combination; the REST BreakerHandler and the zRPC client/server breaker interceptors over a recording breaker (rejected => 503 / Unavailable and the handler does not run; admitted => exactly one resolution, success iff status < 500; breaker named method+path / target+method / full method; zrpc/internal/codes.Acceptable and serverSideAcceptable evaluated on every gRPC code).',
          'go/ssa translation, gosym, z3; E2 float encoding (monotone rounding with anchors: an over-approximation of IEEE-754, so unsat is a proof and models must reproduce concretely); logging/metrics stubs; 2-goroutine schedules of Do are in the thorough tier only.',
          'SSA symbolic execution + SMT (z3), stateless DFS over decision vectors'),
  'C14': ('DESIGN.md §4 C14',
@@ -52,7 +52,7 @@ CLAIMED = {
          'SSA interpretation under an exhaustive scheduler with sleep sets (bounded schedule exploration); solver only for data decisions'),
  'C02': ('DESIGN.md §4 C02',
          'One step of the real adaptiveShedder.Allow / promise.Pass / promise.Fail from an arbitrary shedder state (rolling-window bucket contents, in-flight count and moving average, droppedRecently, overloadTime, CPU load, threshold and clock all symbolic; floats in the E2 real relaxation) against a capacity oracle recomputed by the harness: shed only if (cpu >= threshold or still hot) and in-flight > 10% of capacity; must shed when overloaded with in-flight and average above capacity; never shed with nothing in flight; exact in-flight, window and cool-off state transitions; Disable() yields a shedder that never sheds.',
-         'go/ssa translation, gosym, z3; E2 float encoding (over-approximation of IEEE-754 RNE with monotonicity/anchor axioms; Floor/Ceil/Round of integer/constant quotients computed exactly in integers); 1..2 buckets in quick (1..3 thorough), per-bucket pass count <= 2 (8), 0..1 (0..3) latency samples per bucket; stat.CpuUsage stubbed by a symbolic load; cpuThreshold in 1..999; which buckets a Reduce visits is C16\'s claim (recomputed in the oracle); SheddingHandler/interceptor wrappers are not covered.',
+         'go/ssa translation, gosym, z3; E2 float encoding (over-approximation of IEEE-754 RNE with monotonicity/anchor axioms; Floor/Ceil/Round of integer/constant quotients computed exactly in integers); 1..2 buckets in quick (1..3 thorough), per-bucket pass count <= 2 (8), 0..1 (0..3) latency samples per bucket; stat.CpuUsage stubbed by a symbolic load; cpuThreshold in 1..999; which buckets a Reduce visits is C16\'s claim (recomputed in the oracle); SheddingHandler and UnarySheddingInterceptor are checked over a recording shedder (exactly one Pass/Fail per admitted request, also on panic; 503 / ResourceExhausted when shed); sheddergroup and the CPU sampler are not covered.',
          'SSA symbolic execution + SMT (z3), one-step check from an arbitrary state, E2 float relaxation'),
  'C06': ('DESIGN.md §4 C06',
          'Symbolic execution of the real cacheNode (TakeCtx/TakeWithExpireCtx/doTake/doGetCache/processCache/setCacheWithNotFound/SetWithExpireCtx/SetCtx/DelCtx), mathx.Unstable.AroundDuration (jitter arithmetic in the E2 float relaxation, random draw symbolic) and the SingleFlight barrier against the Redis model: one cached read from an arbitrary coherent (cache, database) state with symbolic TTL/clock, database failure and a store failure at a symbolic call index; TTL windows (+/-5%, rounded up, >= 1 s, never persistent); writes and invalidation; two concurrent readers under every interleaving (one query in flight, shared result).',
